@@ -82,6 +82,8 @@ def prepare(prog, case):
                 s["emit"] = {"stdout": marker("stdout", "{S}", s["uid"]), "stderr": marker("stderr", "{S}", s["uid"]),
                              "log": marker("log", "{S}", s["uid"]), "level": LEVELS[level], "logger": logger,
                              "_level": level}
+                if case.get("flood") and k == 1:
+                    s["emit"]["flood"] = int(case["flood"])     # the first step logs very many records
 
 
 def log_captured(cfg, level_name, logger):
@@ -226,6 +228,8 @@ def check(case):
             if called and outcome != "convert":
                 lvl = s["emit"]["_level"]
                 events += [(k, marker(k, name, s["uid"]), lvl, s["emit"]["logger"]) for k in KINDS]
+                events += [("log", marker("log", name, s["uid"]) + "#%d;" % i, lvl, s["emit"]["logger"])
+                           for i in range(int(s["emit"].get("flood") or 0))]
             if called and outcome == "nest" and hook_emit:
                 # execute_steps(): the step hooks of the sub-steps run (and emit) as well
                 hooked = set((h, ident) for h, ident, _open in ref.hooks)
@@ -302,6 +306,8 @@ def check(case):
         res.label("setup_logging-in-before_all")
     if case.get("capture_hooks"):
         res.label("@capture-decorated-hooks")
+    if case.get("flood"):
+        res.label("log-flood>=999")
     if any(o == "interrupt" for f, i in insts for o in [step_outcome(s, i["rowdict"]) for s in all_steps_of(f, i)]):
         res.label("interrupt")
     if any(s.get("o") == "nest" for f in prog["features"] for it in f["items"] if it["k"] == "s" for s in it["steps"]):
@@ -407,6 +413,8 @@ def random_case(draw):
         case["levels"] = draw(st.lists(st.sampled_from(["WARNING", "ERROR"]), min_size=1, max_size=2))
     if draw(st.integers(0, 3)) == 0:
         case["capture_hooks"] = draw(st.sampled_from(["plain", "error"]))
+    if prog["cfg"]["capture_log"] and draw(st.integers(0, 7)) == 0:
+        case["flood"] = draw(st.sampled_from([999, 1000, 1001, 1500, 2100]))
     # step-hook faults
     if draw(st.integers(0, 4)) == 0:
         prog["hook_faults"] = [[draw(st.integers(0, 10000)), draw(st.sampled_from(["Exception", "AssertionError"]))]]
@@ -430,7 +438,7 @@ def explore(rec):
 
 def required_labels(tier):
     return ["capture:%d%d%d" % (a, b, c) for a in (0, 1) for b in (0, 1) for c in (0, 1)] + \
-           ["hook-emit", "failing-not-first", "step-hook-fault", "logging-level/filter", "setup_logging-in-before_all", "@capture-decorated-hooks", "interrupt", "nested-steps", "cli"]
+           ["hook-emit", "failing-not-first", "step-hook-fault", "logging-level/filter", "setup_logging-in-before_all", "@capture-decorated-hooks", "log-flood>=999", "interrupt", "nested-steps", "cli"]
 
 
 KNOWN_PREDICATES = {}
